@@ -359,4 +359,4 @@ def run(case, ctx):
 
 def stages(tier):
     return [{"name": "hist", "kind": "hyp", "strategy": strategy, "run": run,
-             "examples": {"quick": 8000, "thorough": 500000}, "shards": 16}]
+             "examples": {"quick": 20000, "thorough": 500000}, "shards": 16}]
